@@ -60,12 +60,21 @@ def generate(ck, tier):
         vlib.tlc_ok(res4, "fifo rel+pr budget 2")
         ck.add_tlc(res4, "fifo/rel+pr budget2 (liveness + pairs)")
         mixed += [s for s in sc.schedules_from(p4) if len(s) == 2]
-    global WINDOW_SCHEDS
+    global WINDOW_SCHEDS, TRIPLES
     WINDOW_SCHEDS = sc.gen_window_schedules(ck, tier)
+    if tier == "thorough":
+        # three faults: random behaviours of the budget-3 model (G-sim), invariants checked along the way
+        p5 = os.path.join(ck.dir, f"sched_b3_{tier}_{os.getpid()}.ndjson")
+        r5 = sc.tlc_mc(ck, "fifo_b3_sim", mode="fifo", budget=3, fair=False, msgs="MsgsA12", init_a="{14}", init_b="{0}",
+                       properties=[], sched_sink=p5, simulate=4000, depth=70, timeout=1500)
+        vlib.tlc_ok(r5, "fifo budget 3 simulation")
+        ck.add_tlc(r5, "fifo/budget3 simulation (4000 behaviours, depth 70)")
+        TRIPLES = [f for f in sc.schedules_from(p5) if len(f) == 3]
     return singles, pairs, mixed, res["finished"]
 
 
 WINDOW_SCHEDS = []
+TRIPLES = []
 TSN_SPACES = [None, {"init_tsn_a": WRAP_A, "init_tsn_b": 7000}, {"init_tsn_a": 1000, "init_tsn_b": 500000},
               {"init_tsn_a": 500000, "init_tsn_b": 1000}, {"init_tsn_a": WRAP_A, "init_tsn_b": WRAP_B}]
 
@@ -137,6 +146,9 @@ def build_scenarios(singles, pairs, mixed, tier):
     for i, f in enumerate(chosen_x):
         scen.append(sc.scenario(f"x{i:04d}", stretch(f, rng.choice([1, 2, 3, 4]), rng.choice([1, 2, 3])), [sc.chan(1)],
                                 window_workload(rng), cfg={"init_tsn_a": WRAP_A - 5} if i % 4 == 0 else None))
+    for i, f in enumerate(sc.sample(TRIPLES, 800, vlib.seed() + 40)):
+        scen.append(sc.scenario(f"t{i:04d}", f, [sc.chan(1)], sc.basic_workload(rng, both=(i % 2 == 1)),
+                                cfg={"init_tsn_a": WRAP_A, "init_tsn_b": WRAP_B} if i % 3 == 0 else None))
     # a closing / closed receive window with delayed or late-duplicated SACKs (stale zero-window SACK)
     scen += sc.window_scenarios(WINDOW_SCHEDS, rng, limit=40 if tier == "quick" else 400, seed=vlib.seed() + 31)
     for i, f in enumerate([[]] + mixed):
